@@ -93,7 +93,10 @@ def gen_scenario(rnd):
         n = rnd.randint(2, 6)
         for _ in range(n):
             r = rnd.random()
-            if kind == 'events':
+            if kind == 'events' and r < 0.15:
+                # one call of queue() with several events that have delays of their own
+                ops.append(('queueN', [q((0, 5, 10))[1:] for _ in range(rnd.randint(2, 3))]))
+            elif kind == 'events':
                 ops.append(q((0, 0, 5, 5, 10)) if r < 0.8 else ('idle', rnd.randint(1, 3)))
             elif kind == 'timed':
                 # the chart sends delayed internal events; one client moves the clock while the runner is stepping
@@ -263,6 +266,22 @@ def client_body(world, cname, ops, is_main, others_done, S):
                 name = 'x' if op[1] % 2 else 'y'
                 it.queue(Event(name, u=op[1], delay=op[2]) if op[2] else Event(name, u=op[1]))
                 ret('queue', op[1])
+            elif op[0] == 'queueN':
+                evs = []
+                for (u, d) in op[1]:
+                    call('queue', u, d)
+                    evs.append(Event('x' if u % 2 else 'y', u=u, delay=d) if d else ('x' if u % 2 else 'y'))
+                # (events given by name take the keyword parameters of the call: here only the uid of the last nameless one)
+                named = [u for (u, d) in op[1] if not d]
+                if len(named) > 1:
+                    evs = [Event('x' if u % 2 else 'y', u=u, delay=d) if d else Event('x' if u % 2 else 'y', u=u) for (u, d) in op[1]]
+                    it.queue(*evs)
+                elif named:
+                    it.queue(*evs, u=named[0])
+                else:
+                    it.queue(*evs)
+                for (u, d) in op[1]:
+                    ret('queue', u)
             elif op[0] == 'pause':
                 call('pause')
                 r.pause()
